@@ -17,6 +17,9 @@ CHECKS = {
  "C04": (MC, "TLC: Asm.tla two-pass assembler model over every emitted function (true Enc6502 sizes vs size_bytes)", "6.C04",
          "Every function emitted for the corpus (GenProg sample x placements zero page/ramchip/superchip/3E/3E+ x -O0/-O1, label-stress programs) is consumed line by line by Asm.tla; the sum of true sizes must equal the reported size.",
          "Trusted: Enc6502 table (self-checked), dasm's zero-page selection rule as modelled by ResolveMode, harness layout (non-zero-page classes >= $100)."),
+ "C05": (EX, "repeated compilation histories (in-process repeats interleaved with other programs, fresh processes) validated by TLC against Determinism.tla", "6.C05",
+         "36 programs built around what can leak hash order (0-5 string literals in one call / initialiser list / function, up to 40 variables and functions, inline functions, interrupt handlers, shadowed locals, macro strings) x 4 option sets, each compiled twice per process in shuffled interleaving, in 16 (quick) / 64 (thorough) fresh processes; the digest of the complete observable result must be a function of (source, options). Exploration: a two-way hash-order leak escapes with probability < 2^-30.",
+         "stdout diagnostics are not captured; the harness's own builder replaces the product-specific writer."),
  "C06": (MC, "TLC: GenLoc generator with origin rule; replay of (line-shifting prefix x error kind x placement) into the real compiler", "6.C06",
          "GenLoc.tla enumerates prefixes (<=3 quick, <=4 thorough) of 17 line-shifting constructs followed by one of 16 error kinds (preprocessor, parser, parse-time semantic, code generation) in the main file or an included header, with LF and CR-LF line ends, and computes the physical origin; the Error returned by compile() must carry that file, line (any physical line of a spliced logical line) and including file/line.",
          "Trusted: renderer of items (asserted to produce the stated line counts). Columns are not checked."),
